@@ -16,17 +16,16 @@ What is proved here, strongest first:
   related cells have the same tag (kind + payload) and pointwise related kids; atoms (`None`, bools, ints, floats, `()`)
   are related by value.  Sharing and cycles are part of this: `R` is one-to-one on cells, not on paths.  The CONVERSE
   (isomorphic ⇒ equal canonical forms) is NOT proved.
-* **T2 `roundtrip`**: the general statement is `RoundtripStatement` (below) and is NOT proved.  Proved:
-  - `roundtrip_lists_tuples_partial`: for EVERY heap made of atoms, strings, bytes, tuples and lists (≤ 1000 elements) — with
-    arbitrary sharing and arbitrary cycles (lists containing themselves, recursive tuples) — by the simulation invariant
-    between pickler memo, emitted opcodes and the partially built cells of the unpickler.  Not covered: dict, set,
-    frozenset, class and instance cells (so NOT the heaps of real `.save` files, which are mostly instances), longer lists;
-  - `roundtrip_of_check`: for ONE rooted heap, if the evaluated check `roundtripB h r` (what the driver op `pickle-roundtrip`
-    computes on every in-memory heap of every run) says `true`, then `dump` succeeds, `run` of its opcodes succeeds, and the
-    decoded graph is isomorphic to the original (`Iso`, through T1) — so each evaluated instance carries the full conclusion;
-  - `roundtrip_partial`: for EVERY heap, when the root is an atom, a string or a bytes object (the fragment "atoms; strings").
-    Dicts, classes and instances (cycles through instances: `a.wc = b`, `b.wc = a`) are covered by evaluated instances only —
-    the examples at the end and the per-run evaluation on every real heap — not by a universally quantified theorem.
+* **T2 `roundtrip`** (proved, under the well-formedness hypothesis `Supported`): for every heap made of atoms, strings,
+  bytes, tuples, lists, string-keyed dicts, classes and instances (`NEWOBJ` / `REDUCE`, dict items, state + `BUILD`) in which
+  an instance's state dict belongs to that instance alone — with arbitrary sharing and arbitrary cycles, in particular
+  cycles through instances — `run (dump h r) = ok (h', r')` and `canon h' r' = canon h r`.  These are the shapes of the real
+  `.save` heaps: the hypothesis has a decidable form `supportedB` (`supportedB_sound`) which the driver evaluates on every
+  in-memory heap of every run (op `pickle-supported`), so for those heaps the round trip is a THEOREM, not only an evaluated
+  check.  Size limits in `Supported` (one batch: lists ≤ 1000 elements, dicts < 1000 pairs), no sets / frozensets, no list
+  items or constructor arguments on instances, string keys only.  The unconditional statement `RoundtripStatement` is FALSE
+  (`roundtripStatement_false`).  Also kept: `roundtrip_of_check` (any heap on which the evaluated check `roundtripB` is
+  true) and `roundtrip_partial` (atoms / strings in ANY heap, no hypothesis).
 * **T3** (proved): `run` is a total function of the opcode list; `BINGET` pushes the memoised reference itself; `MEMOIZE`
   leaves heap and stack alone; one opcode rewrites no old cell outside its `targets` (`APPEND(S)` / `SETITEM(S)` /
   `ADDITEMS`: the one container under the items; `BUILD`: the instance and its attribute dict), never shrinks the heap,
@@ -79,8 +78,9 @@ theorem canon_complete {h : Heap} {r : Ref} {c : Canon} (hc : canon h r = some c
 
 /-! ### T2 -/
 
-/-- THE round-trip statement, for all heaps and roots on which the abstract pickler succeeds.  NOT PROVED in general
-    (see the header); `roundtrip_partial` and `roundtrip_of_check` are what is proved. -/
+/-- the round-trip statement WITHOUT a well-formedness hypothesis.  It is FALSE (`roundtripStatement_false` below: a dict with
+    two key cells of the same text is merged by the unpickler; an instance state dict that is also referenced from
+    elsewhere is copied by `BUILD`, exactly as in Python) — the theorem is `roundtrip`, with the hypothesis `Supported`. -/
 def RoundtripStatement : Prop :=
   ∀ (h : Heap) (r : Ref) (ops : List Op), dump h r = .ok ops → (canon h r).isSome → Roundtrip h r
 
@@ -92,22 +92,38 @@ theorem roundtrip_of_check {h : Heap} {r : Ref} (hb : roundtripB h r = true) :
   obtain ⟨ops, h', r', c, hd, hr, hc, hc'⟩ := (roundtripB_iff h r).mp hb
   exact ⟨ops, h', r', hd, hr, by rw [hc, hc'], Pepper.Pickle.canon_iso hc hc'⟩
 
-/-- **T2 for lists, tuples, strings, bytes and atoms — with ARBITRARY SHARING AND ARBITRARY CYCLES.**  For every heap all of
-    whose cells are atoms, strings, bytes (without kids), tuples, or lists of at most `batchSize` = 1000 elements
-    (`Supported`), every root on which the abstract pickler succeeds and that has a canonical form round-trips:
-    `run (dump h r) = ok (h', r')` with `canon h' r' = canon h r`.  Covers DAGs (a string or list reached twice is emitted
-    once and fetched by `BINGET`), cycles through lists (`l = [l]`, the list is memoised while still empty and filled by
-    `APPEND(S)` afterwards) and recursive tuples (`t = ([t],)`: the pickler's re-check, `POP`s and `BINGET`).
-    Proof: the simulation invariant `Sim` between the pickler's memo and the unpickler's state (`PepperProofs/Pickle.lean`),
-    one lemma per `save` case, `iso_of_sim` at `STOP`, then `iso_canon`.
-    MISSING for `RoundtripStatement`: the cases dict (needs: key equality of the unpickler never merges two keys), set /
-    frozenset (same), class (`STACK_GLOBAL`), instance (`NEWOBJ` / `REDUCE`, item batches, `BUILD` copying the state into a
-    fresh attribute dict — there the statement is only true if the state dict is referenced by nothing else), and lists
-    longer than one batch.  The invariant and the framework lemmas (`saveAll_sim`, `Sim.allocMemo`, `Sim.close`,
-    `container_post`) are the ones those cases need. -/
-theorem roundtrip_lists_tuples_partial {h : Heap} (hS : Supported h) {r : Ref} {ops : List Op} (hd : dump h r = .ok ops)
+/-- **T2 `roundtrip`.**  For every heap that is `Supported` — cell by cell: atoms; strings and bytes; tuples; lists of at most
+    1000 elements; dicts of fewer than 1000 pairs whose keys are strings with pairwise different texts; classes; instances
+    `obj` made by `NEWOBJ` or `REDUCE` with the empty argument tuple, no list items, dict items like a dict, and as state
+    nothing or a non-empty string-keyed dict; and (`Owned`) an instance's state dict is referenced by that one instance
+    only and is not the root — with ARBITRARY SHARING AND ARBITRARY CYCLES otherwise (instances pointing at each other,
+    `a.wc = b`, `b.wc = a`; containers containing themselves; recursive tuples): if the abstract pickler succeeds on the root
+    and the root has a canonical form, then `run (dump h r) = ok (h', r')` and `canon h' r' = canon h r`.
+    These are exactly the shapes of the heaps of real `.save` files; the harness evaluates the decidable form `supportedB` of
+    the hypothesis on every one of them (`roundtrip_of_supportedB`).
+    Proof (`PepperProofs/Pickle.lean`): the simulation invariant `Sim` between the pickler's memo and the unpickler's state
+    (memo entries correspond index by index; every memoised cell not on the pickler's recursion stack has a new cell with
+    the same tag and related kids; an instance's state dict is related to the attribute dict `BUILD` allocated, not to its
+    own memo image), one lemma per `save` case, `iso_of_sim` at `STOP`, then `iso_canon`.
+    NOT covered (the unconditional `RoundtripStatement` is FALSE, see the counter-examples below, so hypotheses are needed;
+    these particular ones could be weakened): sets and frozensets, lists / dicts of more than one batch, non-string dict
+    keys, instances with list items or non-empty argument tuples. -/
+theorem roundtrip {h : Heap} {r : Ref} (hS : Supported h r) {ops : List Op} (hd : dump h r = .ok ops)
     {c : Canon} (hc : canon h r = some c) : Roundtrip h r :=
   roundtrip_supported hS hd hc
+
+/-- the same with the hypothesis in its decidable form (what the driver op `pickle-supported` evaluates) -/
+theorem roundtrip_of_supportedB {h : Heap} {r : Ref} (hb : supportedB h r = true) {ops : List Op} (hd : dump h r = .ok ops)
+    {c : Canon} (hc : canon h r = some c) : Roundtrip h r :=
+  roundtrip (supportedB_sound hb) hd hc
+
+/-- … and concluding the isomorphism (T1) -/
+theorem roundtrip_iso {h : Heap} {r : Ref} (hS : Supported h r) {ops : List Op} (hd : dump h r = .ok ops)
+    {c : Canon} (hc : canon h r = some c) :
+    ∃ h' r', run ops = .ok (h', r') ∧ canon h' r' = canon h r ∧ ∃ R, Iso h r h' r' R := by
+  obtain ⟨ops', h', r', c', hd', hr, hc1, hc2⟩ := roundtrip hS hd hc
+  rw [hd] at hd'; cases hd'
+  exact ⟨h', r', hr, by rw [hc1, hc2], Pepper.Pickle.canon_iso hc1 hc2⟩
 
 /-- **T2, fragment "atoms; strings"** — for every heap: a root that is `None`, a bool, an int, a float, the empty tuple,
     a string or a bytes object round-trips.  MISSING for the full statement: every container kind (tuple, list, dict,
@@ -223,24 +239,42 @@ example : roundtripB exRecTuple 0 = true := by decide +kernel
 def exList : Heap := #[⟨.list, [0, 1, 1, 2]⟩, ⟨.list, [2]⟩, ⟨.int 7, []⟩]
 example : roundtripB exList 0 = true := by decide +kernel
 
-/-- T2 for the list / tuple fragment: `exRecTuple` and `exList` are `Supported`, so the universally quantified theorem applies
-    to these cyclic heaps (no evaluation of the round trip involved) -/
-theorem exRecTuple_supported : Supported exRecTuple := by
-  intro i c hc
-  match i, hc with
-  | 0, hc => simp [exRecTuple] at hc; subst hc; simp [okCell]
-  | 1, hc => simp [exRecTuple] at hc; subst hc; simp [okCell, batchSize]
-  | 2, hc => simp [exRecTuple] at hc; subst hc; simp [okCell]
-  | n + 3, hc => simp [exRecTuple] at hc
-example : Roundtrip exRecTuple 0 := by
-  have hd : (dump exRecTuple 0).toOption.isSome = true := by decide +kernel
-  have hc : (canon exRecTuple 0).isSome = true := by decide +kernel
-  cases hd' : dump exRecTuple 0 with
+/-- `roundtrip` applies to the cyclic examples: their heaps are `Supported` (decided by the kernel), so the universally
+    quantified theorem — not an evaluation of the round trip — gives the conclusion; in particular for the two-cycle of
+    instances `a.wc = b`, `b.wc = a` with a shared string -/
+example : supportedB exCycle 4 = true := by decide +kernel
+example : supportedB exRecTuple 0 = true := by decide +kernel
+example : supportedB exList 0 = true := by decide +kernel
+theorem exCycle_roundtrip : Roundtrip exCycle 4 := by
+  have hd : (dump exCycle 4).toOption.isSome = true := by decide +kernel
+  have hc : (canon exCycle 4).isSome = true := by decide +kernel
+  cases hd' : dump exCycle 4 with
   | error e => rw [hd'] at hd; cases hd
   | ok ops =>
-    cases hc' : canon exRecTuple 0 with
+    cases hc' : canon exCycle 4 with
     | none => rw [hc'] at hc; cases hc
-    | some c => exact roundtrip_lists_tuples_partial exRecTuple_supported hd' hc'
+    | some c => exact roundtrip_of_supportedB (by decide +kernel) hd' hc'
+
+/-- why a hypothesis is needed — (1) a dict whose two keys are different cells with the same text: the unpickler's
+    `d[k] = v` merges them … -/
+def exDupKeys : Heap := #[⟨.dict, [1, 3, 2, 3]⟩, ⟨.str "k", []⟩, ⟨.str "k", []⟩, ⟨.int 0, []⟩]
+example : roundtripB exDupKeys 0 = false := by decide +kernel
+example : supportedB exDupKeys 0 = false := by decide +kernel
+/-- … (2) an instance whose state dict (cell 5) is also an element of the root list: `BUILD` copies the state into the
+    instance's own attribute dict, so the decoded list element and the decoded instance no longer share one dict — as in
+    Python, where `pickle.loads(pickle.dumps([x, x.__dict__]))` gives `[y, d]` with `d is not y.__dict__` -/
+def exSharedState : Heap := #[⟨.str "m", []⟩, ⟨.str "C", []⟩, ⟨.global, [0, 1]⟩, ⟨.tuple, []⟩,
+  ⟨.obj true true 0, [2, 3, 5]⟩, ⟨.dict, [6, 7]⟩, ⟨.str "a", []⟩, ⟨.int 1, []⟩, ⟨.list, [4, 5]⟩]
+example : roundtripB exSharedState 8 = false := by decide +kernel
+example : supportedB exSharedState 8 = false := by decide +kernel
+theorem roundtripStatement_false : ¬ RoundtripStatement := by
+  intro hR
+  have hd : (dump exDupKeys 0).toOption.isSome = true := by decide +kernel
+  cases hd' : dump exDupKeys 0 with
+  | error e => rw [hd'] at hd; cases hd
+  | ok ops =>
+    have := (roundtripB_iff exDupKeys 0).mpr (hR exDupKeys 0 ops hd' (by decide +kernel))
+    exact absurd this (by decide +kernel)
 
 /-- T2 fragment: atoms and strings in an arbitrary heap -/
 example : Roundtrip exCycle 3 := roundtrip_partial (c := ⟨.tuple, []⟩) (by decide +kernel) (Or.inl rfl)
